@@ -4,7 +4,7 @@
 Require Extraction.
 Require ExtrOcamlBasic.
 From Coq Require Import List NArith ZArith String.
-From BV Require Import Base Fmt Gen.Escapes Buf Codec Get Gen.GetPut.
+From BV Require Import Base Fmt Gen.Escapes Buf Codec Get Gen.GetPut Cmp.
 Extraction Language OCaml.
 Extraction "model.ml"
   Fmt.parse_lit Fmt.debug_fmt Fmt.hex_fmt Fmt.unhex Fmt.tbl_of Fmt.visit Fmt.serialize Fmt.is_lower_hex Fmt.is_upper_hex
@@ -14,6 +14,7 @@ Extraction "model.ml"
   Base.lenN Base.firstnN Base.skipN Base.usize_max
   Buf.den Buf.remaining Buf.has_remaining Buf.chunk Buf.advance Buf.cv Buf.copy_to_slice Buf.try_copy_to_slice_d
   Buf.copy_to_bytes Buf.iter_take Buf.reader_read Buf.set_limit_at
+  Cmp.cmp_bytes Cmp.eq_bytes
   Codec.dec Codec.spec_of_getter Codec.spec_of_putter Codec.enc
   Get.get Get.tables_ok
   Gen.GetPut.getters Gen.GetPut.putters Gen.GetPut.buf_forward Gen.GetPut.bufmut_forward Gen.GetPut.take_len.
